@@ -2,8 +2,8 @@ SPECIFICATION Spec
 CONSTANTS
   EvilConn = {"e1", "e2"}
   LegitConn = {"l1"}
-  FinishKinds = {"genuine", "wrongkey", "stale", "reordered", "replayed", "unknown", "self", "reflect", "crossname", "badseal", "short", "badtlv"}
-  StartLens = {"ok", "short", "long", "empty"}
+  FinishKinds = {"genuine", "wrongkey", "stale", "reordered", "replayed", "unknown", "self", "selfkey", "replayown", "reflect", "crossname", "badseal", "short", "badtlv"}
+  StartLens = {"ok", "sameA", "short", "long", "empty"}
   Ops = {"GetAcc", "GetChar", "PutVal", "PutSub", "Resource", "AddPair", "RemPair"}
   Noise = {"psstart", "pswrong", "pszero"}
   MaxExch = 2
